@@ -12,6 +12,23 @@ import Mathlib.Analysis.SpecialFunctions.Trigonometric.Bounds
 on the half base cell).  The three pointwise envelopes are
 `npcEnv c l = slopeNpc·l + interceptNpc` (polar caps, function of the folded longitude),
 `topEnv c x = slopeEqr·x + interceptEqr` (`lsc ≤ |lat| < tl`), `botEnv c x = coeffX2Eqr·x² + coeffCstEqr` (`|lat| < lsc`).
+
+Contents
+* Task 1: `c2v_region_choice` (+ `c2v_polar`, `c2v_eqr_top`, `c2v_eqr_bottom`), `c2v_with_radius_region_choice`;
+  the folded longitude: `fold_le` (`0 ≤ lon → fold lon ∈ [0, π/4]`), `fold_neg_example` (F7), `fold_le_add` (1-Lipschitz).
+* Task 2, constants arbitrary reals with the ASSUMED signs `0 ≤ slopeNpc`, `0 ≤ slopeEqr`, `coeffX2Eqr ≤ 0`:
+  `npc_with_radius_is_sup`, `eqr_top_with_radius_is_sup`, `eqr_bottom_with_radius_is_sup` (each `_with_radius` helper
+  is the maximum of its pointwise envelope over a stated band), `c2v_with_radius_is_sup`,
+  `largestC2VWithRadius_is_upper_bound` (public functions).
+* F12: `cex_distance`, `npc_with_radius_not_cone_bound`, `largestC2VWithRadius_not_cone_bound'` (unconditional).
+* The ACTUAL signs of `ConstantsC2V::new(depth)` over ℝ, every depth: `new_slopeNpc_nonneg`, `new_slopeNpc_pos`,
+  `new_coeffX2Eqr_neg`, `new_continuous_at_lsc`, and **`new_slopeEqr_neg`: `slope_eqr < 0`** — the assumed sign is
+  wrong.  Consequences: `eqr_top_with_radius_is_inf`, `eqr_top_with_radius_not_bound`,
+  `largestC2VWithRadius_lt_at_centre'` (band inside `[lsc, tl)`: the value with radius is strictly BELOW the value
+  without radius at the same position), and what does hold unconditionally:
+  `largestC2VWithRadius_upper_bound_eqr` (band below `tl` reaching below `lsc`), `largestC2VWithRadius_upper_bound_npc`.
+* Task 3: `c2vs_with_radius_agree`, `depthsOf_eq_range'`; dev profile: `with_radius_debug_straddle_panics`,
+  `c2vs_debug_straddle` (F7: the two functions differ).
 -/
 
 namespace Hpx.C2VReal
@@ -172,8 +189,9 @@ theorem fold_le_add (x x' : ℝ) (hx : 0 ≤ x) (hx' : 0 ≤ x') : fold x' ≤ f
 
 /-! ## Task 2 — the `_with_radius` helpers are the maxima of the pointwise envelopes over a band
 
-The sign hypotheses on the constants (`0 ≤ slopeNpc`, `0 ≤ slopeEqr`, `coeffX2Eqr ≤ 0`) are facts about
-`ConstantsC2V::new(depth)` that are evaluated numerically elsewhere; here the constants are arbitrary reals. -/
+The sign hypotheses on the constants (`0 ≤ slopeNpc`, `0 ≤ slopeEqr`, `coeffX2Eqr ≤ 0`) are the ones the design of the
+helpers presupposes; here the constants are arbitrary reals.  For `ConstantsC2V::new(depth)` the first and the third
+hold (`new_slopeNpc_nonneg`, `new_coeffX2Eqr_neg`) but the second does NOT (`new_slopeEqr_neg`, further down). -/
 
 /-- **polar caps** (`largest_c2v_dist_in_npc_with_radius`).  With `l = fold lon`: the value is
     `npcEnv (min (l + r) (π/4))`; it dominates the pointwise envelope at every longitude `lon'` whose FOLDED value is
@@ -666,6 +684,12 @@ theorem eqr_top_with_radius_not_bound (c : Csts ℝ) (hs : c.slopeEqr < 0) (x r 
   have : x < min (x + r) tl := lt_min (by linarith) hx
   unfold topEnv; nlinarith
 
+/-- with a non-positive slope the maximum of the pointwise envelope over the band `[max (x − r) lsc, …]` is at its
+    BOTTOM `max (x − r) lsc`, which the code does not evaluate -/
+theorem eqr_top_true_sup_neg_slope (c : Csts ℝ) (hs : c.slopeEqr ≤ 0) (x r : ℝ) :
+    ∀ x', max (x - r) lsc ≤ x' → topEnv c x' ≤ topEnv c (max (x - r) lsc) := by
+  intro x' h; unfold topEnv; nlinarith
+
 /-- the public functions: band inside `[lsc, tl)`, negative `slope_eqr`: the value with radius is strictly below the
     value without radius at the same position -/
 theorem largestC2VWithRadius_lt_at_centre (depth : Nat) (hd1 : 1 ≤ depth) (hd2 : depth ≤ 29)
@@ -794,8 +818,10 @@ theorem largestC2VWithRadius_lt_at_centre' (depth : Nat) (hd1 : 1 ≤ depth) (hd
 theorem new_slopeNpc_nonneg (d : Nat) : 0 ≤ (Csts.new d : Csts ℝ).slopeNpc := by
   obtain ⟨h0, h1⟩ := distCw_range d
   have hpi := Real.pi_pos
-  simp only [Csts.new, spheDist, squaredHalfSegment, pow2, r_nside, r_one, r_two, r_half, r_asin, r_cos, r_sin, r_pi4,
-    r_ofNat]
+  have cast_nside : (((1 <<< d : ℕ)) : ℝ) = 2 ^ d := by rw [Nat.one_shiftLeft]; push_cast; rfl
+  have r_sqrt : ∀ x : ℝ, Num.sqrt x = Real.sqrt x := fun _ => rfl
+  simp only [Csts.new, spheDist, squaredHalfSegment, pow2, r_one, r_two, r_half, r_asin, r_cos, r_sin, r_pi4,
+    r_ofNat, cast_nside, r_sqrt]
   set δ : ℝ := 1 / 2 ^ d with hδ
   set latN := Real.arcsin (1 - (1 - δ) * (1 - δ) / ((3 : ℕ) : ℝ)) with hlatN
   set dMin := latN - (Num.transitionLat : ℝ) with hdMin
@@ -825,4 +851,175 @@ theorem new_slopeNpc_nonneg (d : Nat) : 0 ≤ (Csts.new d : Csts ℝ).slopeNpc :
     linarith
   · apply mul_nonneg (by positivity); linarith
 
+/-- `slope_npc > 0` for every depth `≥ 1` (over ℝ) -/
+theorem new_slopeNpc_pos (d : Nat) (hd : 1 ≤ d) : 0 < (Csts.new d : Csts ℝ).slopeNpc := by
+  obtain ⟨h0, _⟩ := distCw_range d
+  have h1 : (1 : ℝ) / 2 ^ d ≤ 1 / 2 := by
+    have : (2 : ℝ) ^ 1 ≤ 2 ^ d := pow_le_pow_right₀ (by norm_num) hd
+    rw [div_le_div_iff₀ (by positivity) (by norm_num)]; linarith
+  have hpi := Real.pi_pos
+  have cast_nside : (((1 <<< d : ℕ)) : ℝ) = 2 ^ d := by rw [Nat.one_shiftLeft]; push_cast; rfl
+  have r_sqrt : ∀ x : ℝ, Num.sqrt x = Real.sqrt x := fun _ => rfl
+  simp only [Csts.new, spheDist, squaredHalfSegment, pow2, r_one, r_two, r_half, r_asin, r_cos, r_sin, r_pi4,
+    r_ofNat, cast_nside, r_sqrt]
+  set δ : ℝ := 1 / 2 ^ d with hδ
+  set latN := Real.arcsin (1 - (1 - δ) * (1 - δ) / ((3 : ℕ) : ℝ)) with hlatN
+  set dMin := latN - (Num.transitionLat : ℝ) with hdMin
+  have htl : (Num.transitionLat : ℝ) = Real.arcsin (2 / 3) := rfl
+  have hdMin0 : 0 ≤ dMin := by
+    rw [hdMin, htl, hlatN, sub_nonneg]
+    apply Real.monotone_arcsin
+    push_cast; nlinarith
+  have hlatN1 : latN < π / 2 := by
+    rw [hlatN, Real.arcsin_lt_pi_div_two]
+    push_cast
+    have : 0 < (1 - δ) * (1 - δ) := mul_pos (by linarith) (by linarith)
+    linarith
+  have hlatN0 : -(π / 2) ≤ latN := Real.neg_pi_div_two_le_arcsin _
+  have htl0 : 0 < (Num.transitionLat : ℝ) := tl_pos
+  have hc1 : 0 < Real.cos latN := Real.cos_pos_of_mem_Ioo ⟨by linarith [lsc_pos, hdMin0], hlatN1⟩
+  have hc2 : 0 < Real.cos (Num.transitionLat : ℝ) :=
+    Real.cos_pos_of_mem_Ioo ⟨by linarith, by linarith [tl_le_pi3]⟩
+  have hs3 : 0 < Real.sin (1 / 2 * (π / 4 * δ)) :=
+    Real.sin_pos_of_pos_of_lt_pi (by positivity) (by nlinarith)
+  apply div_pos
+  · rw [sub_pos]
+    have hs0 : 0 ≤ Real.sin (1 / 2 * dMin) :=
+      Real.sin_nonneg_of_nonneg_of_le_pi (by linarith) (by linarith)
+    have hlt : Real.sin (1 / 2 * dMin) < Real.sqrt (Real.sin (1 / 2 * dMin) * Real.sin (1 / 2 * dMin) +
+        Real.cos latN * Real.cos (Num.transitionLat : ℝ) *
+          (Real.sin (1 / 2 * (π / 4 * δ)) * Real.sin (1 / 2 * (π / 4 * δ)))) := by
+      apply Real.lt_sqrt_of_sq_lt
+      have := mul_pos (mul_pos hc1 hc2) (mul_pos hs3 hs3)
+      nlinarith
+    set S := Real.sqrt (Real.sin (1 / 2 * dMin) * Real.sin (1 / 2 * dMin) +
+        Real.cos latN * Real.cos (Num.transitionLat : ℝ) *
+          (Real.sin (1 / 2 * (π / 4 * δ)) * Real.sin (1 / 2 * (π / 4 * δ)))) with hS
+    have hhalf : 1 / 2 * dMin < Real.arcsin S := by
+      rcases le_or_gt S 1 with hS1 | hS1
+      · have := Real.arcsin_lt_arcsin (by linarith [Real.neg_one_le_sin (1 / 2 * dMin)]) hlt hS1
+        rwa [Real.arcsin_sin (by linarith) (by linarith)] at this
+      · rw [Real.arcsin_of_one_le hS1.le]; linarith
+    linarith
+  · apply mul_pos (by positivity); linarith
+
+/-- **F12, unconditional**: at every depth `1 … 29` the position `(π/2, π/3)`, at angular distance exactly `cexR` from
+    `(π/4, π/3)` (`cex_distance`) and in the same polar cap, has a pointwise value strictly above the value with radius
+    of the cone `((π/4, π/3), cexR)` (exact arithmetic) -/
+theorem largestC2VWithRadius_not_cone_bound' (depth : Nat) (hd1 : 1 ≤ depth) (hd2 : depth ≤ 29) :
+    ∃ v w, largestC2VWithRadius false depth (π / 4 : ℝ) (π / 3) cexR = some v ∧
+      largestC2V false depth (π / 2 : ℝ) (π / 3) = some w ∧ v < w :=
+  largestC2VWithRadius_not_cone_bound depth hd1 hd2 (new_slopeNpc_pos depth hd1)
+
+/-! ### what the function with radius does bound, with the ACTUAL signs (`slopeEqr ≤ 0`)
+
+With a decreasing upper equatorial envelope the value with radius is an upper bound of the pointwise value over the
+latitude band exactly when the band reaches below `lsc` (`|lat| − r < lsc`) and does not reach `tl`: then the maximum
+of the pointwise value over the band is the parabola at the bottom of the band, which the code does evaluate.  When the
+band lies inside `[lsc, tl)` it is not (`largestC2VWithRadius_lt_at_centre'`). -/
+
+theorem c2v_with_radius_upper_neg_slope (c : Csts ℝ) (h2 : c.slopeEqr ≤ 0) (h3 : c.coeffX2Eqr ≤ 0)
+    (hcont : topEnv c lsc = botEnv c lsc) (lon lat r lon' lat' : ℝ) (hband : |(|lat'| - |lat|)| ≤ r)
+    (hA : |lat| + r < tl) (hB : |lat| - r < lsc) :
+    c2v c lon' lat' ≤ c2vR c lon lat r := by
+  obtain ⟨hb1, hb2⟩ := abs_le.mp hband
+  have ha' := abs_nonneg lat'
+  have hlt' : |lat'| < tl := by linarith
+  unfold c2v c2vR
+  rw [if_neg (not_le.mpr hlt'), if_neg (not_le.mpr hA), if_neg (not_le.mpr hB)]
+  have hbot : ∀ x, max (|lat| - r) 0 ≤ x → botEnv c x ≤ botEnv c (max (|lat| - r) 0) := by
+    intro x hx
+    have h0 : 0 ≤ max (|lat| - r) 0 := le_max_right _ _
+    have : max (|lat| - r) 0 * max (|lat| - r) 0 ≤ x * x := mul_le_mul hx hx h0 (h0.trans hx)
+    unfold botEnv; nlinarith
+  have hmx : max (|lat| - r) 0 ≤ |lat'| := max_le (by linarith) ha'
+  have htop : ∀ x, lsc ≤ x → topEnv c x ≤ botEnv c (max (|lat| - r) 0) := by
+    intro x hx
+    have h1 : topEnv c x ≤ topEnv c lsc := by unfold topEnv; nlinarith
+    have h2 : max (|lat| - r) 0 ≤ lsc := max_le hB.le lsc_pos.le
+    exact h1.trans (hcont ▸ hbot _ h2)
+  by_cases hC : |lat| + r ≤ lsc
+  · rw [if_pos hC]
+    by_cases hl : lsc ≤ |lat'|
+    · rw [if_pos hl]; exact htop _ hl
+    · rw [if_neg hl]; exact hbot _ hmx
+  · rw [if_neg hC]
+    by_cases hl : lsc ≤ |lat'|
+    · rw [if_pos hl]; exact (htop _ hl).trans (le_max_right _ _)
+    · rw [if_neg hl]; exact (hbot _ hmx).trans (le_max_right _ _)
+
+/-- **unconditional upper bound** (every depth `1 … 29`, exact arithmetic): if the latitude band of the cone stays below
+    `tl` and reaches below `lsc`, `largest_center_to_vertex_distance_with_radius` dominates
+    `largest_center_to_vertex_distance` at every position of the band (any longitudes) -/
+theorem largestC2VWithRadius_upper_bound_eqr (depth : Nat) (hd1 : 1 ≤ depth) (hd2 : depth ≤ 29)
+    (lon lat r lon' lat' : ℝ) (hband : |(|lat'| - |lat|)| ≤ r) (hA : |lat| + r < tl) (hB : |lat| - r < lsc) :
+    ∃ v w, largestC2VWithRadius false depth lon lat r = some v ∧ largestC2V false depth lon' lat' = some w ∧ w ≤ v := by
+  refine ⟨c2vR (Csts.new depth) lon lat r, c2v (Csts.new depth) lon' lat', ?_, ?_, ?_⟩
+  · rw [c2v_with_radius_region_choice, if_neg (by omega), if_neg (by omega)]
+  · rw [c2v_region_choice, if_neg (by omega), if_neg (by omega)]
+  · exact c2v_with_radius_upper_neg_slope _ (new_slopeEqr_neg depth).le (new_coeffX2Eqr_neg depth).le
+      (new_continuous_at_lsc depth) lon lat r lon' lat' hband hA hB
+
+/-- **unconditional, polar-cap branch** (every depth `1 … 29`): when `tl ≤ |lat| + r` the value with radius dominates
+    the pointwise value at the positions of a polar cap whose FOLDED longitude is at most `fold lon + r` (and `π/4`) —
+    nothing more (`largestC2VWithRadius_not_cone_bound'`) -/
+theorem largestC2VWithRadius_upper_bound_npc (depth : Nat) (hd1 : 1 ≤ depth) (hd2 : depth ≤ 29)
+    (lon lat r lon' lat' : ℝ) (hA : tl ≤ |lat| + r) (hpol : tl ≤ |lat'|) (hf1 : fold lon' ≤ fold lon + r)
+    (hf2 : fold lon' ≤ π / 4) :
+    ∃ v w, largestC2VWithRadius false depth lon lat r = some v ∧ largestC2V false depth lon' lat' = some w ∧ w ≤ v := by
+  refine ⟨c2vR (Csts.new depth) lon lat r, c2v (Csts.new depth) lon' lat', ?_, ?_, ?_⟩
+  · rw [c2v_with_radius_region_choice, if_neg (by omega), if_neg (by omega)]
+  · rw [c2v_region_choice, if_neg (by omega), if_neg (by omega)]
+  · unfold c2v c2vR
+    rw [if_pos hpol, if_pos hA]
+    have : fold lon' ≤ min (fold lon + r) (π / 4) := le_min hf1 hf2
+    have := new_slopeNpc_nonneg depth
+    unfold npcEnv; nlinarith
+
+/-! ### satisfiability of the hypotheses -/
+
+/-- constants with the three ASSUMED signs and the continuity at `lsc` -/
+noncomputable def exC : Csts ℝ :=
+  { slopeNpc := 1, interceptNpc := 0, slopeEqr := 1, interceptEqr := 0, coeffX2Eqr := -1, coeffCstEqr := lsc + lsc * lsc }
+
+example : 0 ≤ exC.slopeNpc ∧ 0 ≤ exC.slopeEqr ∧ exC.coeffX2Eqr ≤ 0 ∧ topEnv exC lsc = botEnv exC lsc := by
+  refine ⟨by simp [exC], by simp [exC], by simp [exC], ?_⟩
+  simp only [topEnv, botEnv, exC]; ring
+
+/-- a band straddling `lsc`, below `tl`: centre `lsc`, radius `(tl − lsc)/2`, position `lsc + (tl − lsc)/4` -/
+example : |(|lsc + (tl - lsc) / 4| - |lsc|)| ≤ (tl - lsc) / 2 ∧ |lsc| + (tl - lsc) / 2 < tl ∧ |lsc| - (tl - lsc) / 2 < lsc := by
+  have h1 := lsc_pos
+  have h2 := lsc_lt_tl
+  rw [abs_of_pos h1, abs_of_pos (by linarith : 0 < lsc + (tl - lsc) / 4)]
+  refine ⟨?_, by linarith, by linarith⟩
+  rw [abs_le]; constructor <;> linarith
+
+/-- a band inside `[lsc, tl)`: centre `(lsc + tl)/2`, radius `(tl − lsc)/4` -/
+example : (0 : ℝ) < (tl - lsc) / 4 ∧ lsc ≤ |(lsc + tl) / 2| - (tl - lsc) / 4 ∧ |(lsc + tl) / 2| + (tl - lsc) / 4 < tl := by
+  have h1 := lsc_pos
+  have h2 := lsc_lt_tl
+  rw [abs_of_pos (by linarith)]
+  refine ⟨by linarith, by linarith, by linarith⟩
+
 end Hpx.C2VReal
+
+#print axioms Hpx.C2VReal.c2v_region_choice
+#print axioms Hpx.C2VReal.c2v_with_radius_region_choice
+#print axioms Hpx.C2VReal.npc_with_radius_is_sup
+#print axioms Hpx.C2VReal.npc_with_radius_lon_band
+#print axioms Hpx.C2VReal.eqr_top_with_radius_is_sup
+#print axioms Hpx.C2VReal.eqr_bottom_with_radius_is_sup
+#print axioms Hpx.C2VReal.c2v_with_radius_is_sup
+#print axioms Hpx.C2VReal.largestC2VWithRadius_is_upper_bound
+#print axioms Hpx.C2VReal.cex_distance
+#print axioms Hpx.C2VReal.largestC2VWithRadius_not_cone_bound'
+#print axioms Hpx.C2VReal.c2vs_with_radius_agree
+#print axioms Hpx.C2VReal.depthsOf_eq_range'
+#print axioms Hpx.C2VReal.with_radius_debug_straddle_panics
+#print axioms Hpx.C2VReal.c2vs_debug_straddle
+#print axioms Hpx.C2VReal.new_slopeEqr_neg
+#print axioms Hpx.C2VReal.new_coeffX2Eqr_neg
+#print axioms Hpx.C2VReal.new_slopeNpc_nonneg
+#print axioms Hpx.C2VReal.largestC2VWithRadius_lt_at_centre'
+#print axioms Hpx.C2VReal.largestC2VWithRadius_upper_bound_eqr
+#print axioms Hpx.C2VReal.largestC2VWithRadius_upper_bound_npc
